@@ -9,6 +9,8 @@ is z = predicted - measured = H x + v, hence   d/de z(correct_pva(pva, e x)) |_0
 Numerical statement checks on the implementation (support, and the falsifier):
   jacobian   4th-order central finite difference of compute_matrices' z under correct_pva vs the returned H
              (|J + H| <= 1e-5 * max(1, |H|)), every class x mode x lever arm None/given x rates present/absent
+  antenna    a measurement simulated WITH the lever arm (ECEF position of the antenna / v + C (w x l)) gives z ~ 0
+             at the true state; lever arms include ones with one or two exactly-zero components and the zero arm
   residual   z = predicted - measured against an independent oracle (ECEF difference rotated to NED for
              Position; v + C(w x l) - m; C^T v - m)
   noise      R = sd^2 I with the shape of z;   absent   compute_matrices(t not in data) is None
@@ -20,7 +22,7 @@ import numpy as np
 import pandas as pd
 
 RULE = ("translator: every traced function validated on 60 random inputs per run; numeric support: random pva "
-        "(|lat| <= 85, |pitch| <= 85), lever arm None or |l| <= 3 m, body rates absent or |w| <= 1 rad/s, measured "
+        "(|lat| <= 85, |pitch| <= 85), lever arm None or |l| <= 3 m (half of them with 1-3 exactly-zero components), body rates absent or |w| <= 1 rad/s, measured "
         "value within 5 m / 5 m/s of the prediction, three classes x two altitude modes; a case is distinct by "
         "(class, mode, lever?, rates?, rounded pva)")
 
@@ -137,6 +139,38 @@ def eval_case(kind, p):
         scale = max(1.0, float(np.abs(H).max()))
         err = float(np.abs(J + H).max())
         return err <= JTOL * scale, dict(max_abs_J_plus_H=err, scale=scale, H=H.tolist(), minus_J=(-J).tolist())
+    if kind == 'antenna':
+        # the measured value is what a sensor AT THE ANTENNA sees (computed independently: ECEF position of the
+        # antenna, velocity v + C (w x l)); the residual at the true state must vanish
+        q = dict(p)
+        pva = p['pva']
+        r_, pt, h = [math.radians(a) for a in pva[6:9]]
+        cr, sr, cp, sp, ch, sh = math.cos(r_), math.sin(r_), math.cos(pt), math.sin(pt), math.cos(h), math.sin(h)
+        C = np.array([[ch * cp, ch * sp * sr - sh * cr, ch * sp * cr + sh * sr],
+                      [sh * cp, sh * sp * sr + ch * cr, sh * sp * cr - ch * sr],
+                      [-sp, cp * sr, cp * cr]])
+        l = np.array(p['lever']) if p['lever'] is not None else np.zeros(3)
+        if p['cls'] == 'Position':
+            la, lo = math.radians(pva[0]), math.radians(pva[1])
+            Cen = np.array([[-math.sin(la) * math.cos(lo), -math.sin(lo), -math.cos(la) * math.cos(lo)],
+                            [-math.sin(la) * math.sin(lo), math.cos(lo), -math.cos(la) * math.sin(lo)],
+                            [math.cos(la), 0.0, -math.sin(la)]])
+            q['meas'] = [float(v) for v in transform.ecef_to_lla(transform.lla_to_ecef(pva[:3]) + Cen @ (C @ l))]
+            tol = 1e-3
+        elif p['cls'] == 'NedVelocity':
+            w = np.array(p['rates']) if p['rates'] is not None else np.zeros(3)
+            q['meas'] = [float(v) for v in np.array(pva[3:6]) + C @ np.cross(w, l)]
+            tol = 1e-9
+        else:
+            q['meas'] = [float(v) for v in C.T @ np.array(pva[3:6])]
+            tol = 1e-9
+        pva9, rates, l_, em, meas = build(q)
+        ret = meas.compute_matrices(T0, full(pva9, rates), em)
+        if ret is None:
+            return False, dict(error="None at a time present in the data")
+        z = np.asarray(ret[0], dtype=float)
+        err = float(np.abs(z).max())
+        return err <= tol, dict(z=z.tolist(), tol=tol, antenna_measurement=q['meas'])
     if kind == 'sim':
         em = InsErrorModel(p['with_altitude'])
         rows = np.array(p['traj'], dtype=float)
@@ -168,6 +202,9 @@ def eval_case(kind, p):
     raise ValueError(kind)
 
 
+ZERO_PATTERNS = [(0, 0, 0), (0, 1, 0), (1, 1, 0), (0, 0, 0), (1, 0, 0), (0, 0, 1), (1, 0, 1), (0, 1, 1), (1, 1, 1)]
+
+
 def gen_cases(rng, n):
     cases = []
     combos = []
@@ -180,6 +217,11 @@ def gen_cases(rng, n):
         cls, wa, lever, rates = combos[i % len(combos)]
         pva = rand_pva(rng)
         l = [rng.uniform(-3, 3) for _ in range(3)] if lever else None
+        if lever:
+            # half of the lever arms have one or two exactly-zero components (axis-aligned / planar mounting,
+            # e.g. [1.5, 0, -0.8], [0, 0, -2]) or are all zero: a continuous draw never produces these
+            zp = ZERO_PATTERNS[(i // len(combos)) % len(ZERO_PATTERNS)]
+            l = [0.0 if z else v for v, z in zip(l, zp)]
         w = [rng.uniform(-1, 1) for _ in range(3)] if rates else None
         sd = rng.choice([0.5, 2.0, rng.uniform(0.1, 5)])
         p = dict(cls=cls, with_altitude=wa, pva=pva, lever=l, rates=w, sd=sd)
@@ -207,7 +249,7 @@ def numeric_statements(r, n, nsim, seed_shift=6):
         key = (p['cls'], p['with_altitude'], p['lever'] is not None, p['rates'] is not None)
         dist[str(key)] = dist.get(str(key), 0) + 1
         r.case(key + tuple(round(v, 6) for v in p['pva']), sample=dict(p))
-        for kind in ('jacobian', 'residual', 'noise', 'absent'):
+        for kind in ('jacobian', 'residual', 'antenna', 'noise', 'absent'):
             try:
                 ok, det = eval_case(kind, p)
             except Exception as ex:
@@ -239,6 +281,8 @@ def check(r):
         "scipy Rotation.from_rotvec / from_euler('xyz') / as_euler read as Spec/LibSpecs.v (validated numerically each run)",
         "pandas label lookup (`time in data.index`, `.loc[time, cols]`): the trace is taken at a present epoch and "
         "requires None at an absent one; availability for arbitrary indices is checked on the implementation only",
+        "scipy check_random_state passes a RandomState instance through; the simulators' rng.randn(n, 3) is read as "
+        "the symbolic noise row (a RandomState subclass is handed to the unmodified generators while tracing)",
         "binary64 rounding not modelled: theorems over the reals",
     ]
     r.assumptions += [
@@ -248,8 +292,13 @@ def check(r):
         "check of Position therefore places the measured point within 5 cm of the prediction (+ lever arm)",
         "attitude in the open principal range (roll, heading in (-180,180), |pitch| < 90); Position also needs "
         "|lat| < 90 and alt >= -1000 km",
-        "absent time -> None and the simulated-measurement statements are checked on the implementation "
-        "(and None-at-absent-epoch is enforced while tracing), not proved for arbitrary data frames",
+        "absent time -> None is checked on the implementation (and enforced while tracing), not proved for "
+        "arbitrary data frames",
+        "simulated measurements: proved (C06_sim_zero_residual_*, C06_sim_injected_error_*) for the generators traced "
+        "on a one-row trajectory with error_sd = s and rng.randn = (n0,n1,n2) symbolic, lever arm None (the generators "
+        "simulate the value at the IMU and take no lever arm / rates): z = 0 exactly for s = 0 (all classes, both "
+        "modes), z = -(s n) exactly for the velocity classes and the Position down row, Position north/east rows "
+        "-(s n) to first order in s (|lat| < 90, alt >= -1000 km); multi-row frames are checked on the implementation",
     ]
     # the numerical statements do not depend on Gen/ErrState.v: they run whatever happens to the translator / proofs
     try:
